@@ -206,6 +206,33 @@ func init() {
 				Run: func(w *fw.W) { w.Trie(c11Frag, 1, w.Pick(3, 4)) }, Eval: evalC11Case},
 			{Name: "case-vectors", Space: "every C04 grammar vector x case assignments", Share: 2,
 				Run: func(w *fw.W) { w.Each(len(vectors), func(i int) { w.Item(asciiLower(vectors[i]), "") }) }, Eval: evalC11Case},
+			{Name: "case-scheme-tails", Space: "every URL attribute x 4 schemes x tail in {each letter of the scheme, the scheme again, x} x 2 quotings x case assignments: a later occurrence of a scheme letter in the other case must not hide the scheme", Share: 1,
+				Run: func(w *fw.W) {
+					var items []string
+					htmlLists()
+					var urlAttrs []string
+					for _, a := range hAttrs {
+						if a.Type == refhtml.AttrURL {
+							urlAttrs = append(urlAttrs, asciiLower(a.Name))
+						}
+					}
+					for _, a := range urlAttrs {
+						for _, sc := range []string{"javascript:", "vbscript:", "data:", "view-source:"} {
+							tails := []string{sc, "x"}
+							seen := map[byte]bool{}
+							for i := 0; i < len(sc); i++ {
+								if c := sc[i]; c >= 'a' && c <= 'z' && !seen[c] {
+									seen[c] = true
+									tails = append(tails, string([]byte{c}))
+								}
+							}
+							for _, t := range tails {
+								items = append(items, "<a "+a+"="+sc+t+">", "<a "+a+"=\""+sc+"f("+t+")\">")
+							}
+						}
+					}
+					w.Each(len(items), func(i int) { w.Item(items[i], "") })
+				}, Eval: evalC11Case},
 			{Name: "nul-trie-H1", Space: "H1^<=4 (quick) / <=5 (thorough) x 5 contexts x interior positions of name tokens", Share: 4,
 				Run: func(w *fw.W) { w.Trie(alpha.H1, 1, w.Pick(4, 5)) }, Eval: evalC11Nul},
 			{Name: "nul-trie-H1core-deep", Space: "H1core^5 (quick) / ^5..6 (thorough) x 5 contexts x interior positions of name tokens", Share: 3,
